@@ -104,6 +104,10 @@ end
 inductive WItem where
   | item (i : Item)
   | value (self : Lbl) (v : Value)
+  /-- `ScriptVariable::Archive(arc)`: a named variable — its `key` through `StringDictionary::ArchiveString`, then
+      `ArchiveInternal` (what `con::Archive(arc, Entry<const_str, ScriptVariable>&)` does for every entry of a
+      `ScriptVariableList`) -/
+  | named (self : Lbl) (key : Option Bytes) (v : Value)
   deriving Repr
 
 /-- all the `Archive*` calls of a mixed sequence -/
@@ -116,6 +120,10 @@ def expand (t : List Lbl) : List WItem → List Lbl × List Item
     let r1 := valCalls t s v
     let r2 := expand r1.1 ws
     (r2.1, r1.2 ++ r2.2)
+  | .named s k v :: ws =>
+    let r1 := valCalls t s v
+    let r2 := expand r1.1 ws
+    (r2.1, keyCalls k ++ (r1.2 ++ r2.2))
 
 def encodeW (info : Info) (ws : List WItem) : Bytes := encode info (expand [] ws).2
 
@@ -296,11 +304,13 @@ end
 inductive WSch where
   | item (c : Sch)
   | value (self : Lbl) (sup : Supply)
+  | named (self : Lbl) (sup : Supply)
 
 def schemaW : List WItem → List WSch
   | [] => []
   | .item i :: ws => .item (schemaOfItem i) :: schemaW ws
   | .value s v :: ws => .value s (supplyOf v) :: schemaW ws
+  | .named s _ v :: ws => .named s (supplyOf v) :: schemaW ws
 
 def readW (cfg : Cfg) (classes : List Bytes) (fuel : Nat) : List WSch → RS → Res (List WItem)
   | [], s => .ok [] s
@@ -309,6 +319,10 @@ def readW (cfg : Cfg) (classes : List Bytes) (fuel : Nat) : List WSch → RS →
   | .value self sup :: cs, s =>
     (readValue cfg fuel self sup s).bind fun r s =>
       (readW cfg classes fuel cs s).bind fun is s => .ok (.value self r.1 :: is) s
+  | .named self sup :: cs, s =>
+    (readKey cfg s).bind fun k s =>
+      (readValue cfg fuel self sup s).bind fun r s =>
+        (readW cfg classes fuel cs s).bind fun is s => .ok (.named self k r.1 :: is) s
 
 def look (table : List Lbl) (i : Nat) : Lbl := if i = 0 then 0 else table.getD (i - 1) 0
 
@@ -328,6 +342,7 @@ end
 def fixW (table : List Lbl) : WItem → WItem
   | .item i => .item (fixItem table i)
   | .value s v => .value s (fixValue table v)
+  | .named s k v => .named s k (fixValue table v)
 
 /-- `decode` for mixed sequences (fuel: nesting depth the value reader may descend) -/
 def decodeW (cfg : Cfg) (classes : List Bytes) (info : Info) (sch : List WSch) (bytes : Bytes) :
